@@ -71,14 +71,14 @@ const (
 	opADDRESS, opBALANCE, opCALLER, opCALLVALUE  = 0x30, 0x31, 0x33, 0x34
 	opCALLDATALOAD, opCALLDATASIZE, opCALLDATACP = 0x35, 0x36, 0x37
 	opCODECOPY, opRETURNDATASIZE, opRETURNDATACP = 0x39, 0x3d, 0x3e
-	opSELFBALANCE                                 = 0x47
-	opPOP, opMLOAD, opMSTORE, opMSTORE8           = 0x50, 0x51, 0x52, 0x53
-	opSLOAD, opSSTORE, opJUMP, opJUMPI, opGAS     = 0x54, 0x55, 0x56, 0x57, 0x5a
-	opDUP1, opDUP2, opSWAP1                       = 0x80, 0x81, 0x90
-	opLOG0, opLOG1, opLOG2                        = 0xa0, 0xa1, 0xa2
-	opCREATE, opCALL, opRETURN, opDELEGATECALL    = 0xf0, 0xf1, 0xf3, 0xf4
-	opCREATE2, opSTATICCALL, opREVERT, opINVALID  = 0xf5, 0xfa, 0xfd, 0xfe
-	opSELFDESTRUCT                                = 0xff
+	opSELFBALANCE                                = 0x47
+	opPOP, opMLOAD, opMSTORE, opMSTORE8          = 0x50, 0x51, 0x52, 0x53
+	opSLOAD, opSSTORE, opJUMP, opJUMPI, opGAS    = 0x54, 0x55, 0x56, 0x57, 0x5a
+	opDUP1, opDUP2, opSWAP1                      = 0x80, 0x81, 0x90
+	opLOG0, opLOG1, opLOG2                       = 0xa0, 0xa1, 0xa2
+	opCREATE, opCALL, opRETURN, opDELEGATECALL   = 0xf0, 0xf1, 0xf3, 0xf4
+	opCREATE2, opSTATICCALL, opREVERT, opINVALID = 0xf5, 0xfa, 0xfd, 0xfe
+	opSELFDESTRUCT                               = 0xff
 )
 
 // childRuntime: on any call, slot0 += 1 and LOG1(topic=callvalue).
@@ -110,7 +110,7 @@ func initFor(runtime []byte, ctor string) []byte {
 	pre.op(0x61, byte(len(runtime)>>8), byte(len(runtime))) // PUSH2 size
 	pre.op(opDUP1)
 	pre.op(0x61, byte(off>>8), byte(off)) // PUSH2 off
-	pre.op(0x60, 0x00)                   // PUSH1 0
+	pre.op(0x60, 0x00)                    // PUSH1 0
 	pre.op(opCODECOPY)
 	pre.op(0x60, 0x00) // PUSH1 0
 	pre.op(opRETURN)
@@ -249,7 +249,7 @@ func mainRuntime() []byte {
 
 	// delegate: copy calldata[33:] to mem; DELEGATECALL(gas 100000, A, mem, size)
 	a.label("delegate")
-	a.push(33).op(opCALLDATASIZE).op(opSUB) // size
+	a.push(33).op(opCALLDATASIZE).op(opSUB)        // size
 	a.op(opDUP1).push(33).push(0).op(opCALLDATACP) // calldatacopy(dest 0, off 33, size) -- stack: size
 	a.push(0).push(0)                              // out size, out off
 	a.op(0x82)                                     // DUP3 size
